@@ -19,36 +19,40 @@ type elemDec struct {
 	entry string
 	// dec returns the compressed and (when the entry point exposes it) the
 	// uncompressed re-serialisation of the decoded value.
-	dec      func(in []byte) (ok bool, comp, unc []byte)
+	dec      func(in []byte) (ok bool, ser func() (comp, unc []byte))
 	compOnly bool // entry point with a single (compressed) format: other lengths are not judged
 }
 
 func groupDec(name string, g group.Group) elemDec {
-	return elemDec{entry: "group." + name + ".Element.UnmarshalBinary", dec: func(in []byte) (bool, []byte, []byte) {
+	return elemDec{entry: "group." + name + ".Element.UnmarshalBinary", dec: func(in []byte) (bool, func() ([]byte, []byte)) {
 		e := g.NewElement()
 		if err := e.UnmarshalBinary(in); err != nil {
-			return false, nil, nil
+			return false, nil
 		}
-		c, err1 := e.MarshalBinaryCompress()
-		u, err2 := e.MarshalBinary()
-		if err1 != nil || err2 != nil {
-			return true, nil, nil
+		return true, func() ([]byte, []byte) {
+			c, err1 := e.MarshalBinaryCompress()
+			u, err2 := e.MarshalBinary()
+			if err1 != nil || err2 != nil {
+				return nil, nil
+			}
+			return c, u
 		}
-		return true, c, u
 	}}
 }
 
 func oprfDec(name string, s oprf.Suite) elemDec {
-	return elemDec{entry: "oprf.PublicKey.UnmarshalBinary[" + name + "]", compOnly: true, dec: func(in []byte) (bool, []byte, []byte) {
+	return elemDec{entry: "oprf.PublicKey.UnmarshalBinary[" + name + "]", compOnly: true, dec: func(in []byte) (bool, func() ([]byte, []byte)) {
 		pk := new(oprf.PublicKey)
 		if err := pk.UnmarshalBinary(s, in); err != nil {
-			return false, nil, nil
+			return false, nil
 		}
-		c, err := pk.MarshalBinary()
-		if err != nil {
-			return true, nil, nil
+		return true, func() ([]byte, []byte) {
+			c, err := pk.MarshalBinary()
+			if err != nil {
+				return nil, nil
+			}
+			return c, nil
 		}
-		return true, c, nil
 	}}
 }
 
@@ -63,9 +67,21 @@ func judgeSEC1(c *c09ref.SEC1Curve, d elemDec, x tc) {
 	lib.Count("presented:" + c.Name + ":" + x.class)
 	var ok bool
 	var comp, unc []byte
-	if p := lib.Try(d.entry, in, func() { ok, comp, unc = d.dec(in) }); p != nil {
+	var ser func() ([]byte, []byte)
+	if p := lib.Try(d.entry, in, func() { ok, ser = d.dec(in) }); p != nil {
 		lib.Count("panic-left-to-C10:" + d.entry)
 		return
+	}
+	if ok {
+		if p := lib.Try(d.entry+"/reserialise", in, func() { comp, unc = ser() }); p != nil {
+			lib.Count("decoder-accepted:" + d.entry)
+			cls := "accepted-value-panics-on-reserialisation"
+			if c.Decode(in).Why == "not-on-curve" {
+				cls = "off-curve-accepted"
+			}
+			viol(cls, d.entry, "", monGroup, "class", x.class, "input", in, "panic", p.Value)
+			return
+		}
 	}
 	v := c.Decode(in)
 	if v.Why != "" && v.Why != "not-on-curve" {
@@ -335,9 +351,17 @@ func judgeR255(d elemDec, x tc) {
 	lib.Count("presented:ristretto255:" + x.class)
 	var ok bool
 	var out []byte
-	if p := lib.Try(d.entry, in, func() { ok, out, _ = d.dec(in) }); p != nil {
+	var ser func() ([]byte, []byte)
+	if p := lib.Try(d.entry, in, func() { ok, ser = d.dec(in) }); p != nil {
 		lib.Count("panic-left-to-C10:" + d.entry)
 		return
+	}
+	if ok {
+		if p := lib.Try(d.entry+"/reserialise", in, func() { out, _ = ser() }); p != nil {
+			lib.Count("decoder-accepted:" + d.entry)
+			viol("accepted-value-panics-on-reserialisation", d.entry, "", monR255, "class", x.class, "input", in, "panic", p.Value)
+			return
+		}
 	}
 	rx, ry, why := c09ref.R255Decode(in)
 	if why != "" && why != "non-square" {
